@@ -548,15 +548,30 @@ def mps_simulators(mk, sim, prog, q):
     gate the class does not support must be rejected (raise), never applied wrongly.
 
     q = state / expec: dense state, amplitudes, one local expectation against the reference.
-    q = rdm / expect / marginal: (1) to_dense() == reference state, (2) the query == the same quantity
-    computed (qv.ref, explicit loops) from the dense state the object holds.  (1) and (2) give
-    query == reference value; stating (2) on the held state keeps the certificate degree low (the
-    quadratic queries need the isometry contracts of the canonical form, not the whole history)."""
+    q = rdm / expect / marginal: two stages, decided on separate paths (so that the hypotheses of one stage do
+    not enter the certificate search of the other); together they give  query == reference value:
+      A  to_dense() == reference state                                   (LAPACK contracts, Q-CERT)
+      B  query == the same quantity computed (qv.ref, explicit loops) from the dense state the object holds.
+         rdm / marginal: a polynomial identity in the MPS tensor entries - decided with the factorisation
+         contracts switched OFF (fresh unconstrained factors: it holds for every tensor content, and a
+         false identity is refuted by a witness at once);  expect: needs the isometry contracts of the
+         re-canonised tensors (Q-CERT), stated call by call relative to the held state.
+    The numeric runs do both stages and also compare every query with the reference state directly."""
     mk.encodes(cmps.CircuitMPS, cmps.CircuitPermMPS, cmps.CircuitMPS.to_dense, cmps.CircuitMPS.amplitude,
                cmps.CircuitMPS.local_expectation, cmps.CircuitMPS.partial_trace, cmps.CircuitPermMPS.get_psi, G.apply_swap)
     N = PROG_N.get(prog, 3)
+    staged = q in _MPQ
+    if q == "expect" and N > 3 and mk.sym:
+        # the isometry certificates of a 4-site canonical form exceed the row budget (> 10**5 rows): labelled
+        # numeric-only supplement (the numeric runs below compare every call with the reference state)
+        mk.note("local_expectation on 4-qubit MPS programs: numeric cross-run only")
+        mk.same("numeric-only configuration (symbolic run skipped)", True, True)
+        return
+    stage = (mk.choice("stage", ("A", "B")) if mk.sym else "AB") if staged else "A"
     p = build_program(mk, prog, kind="real")
     stubs.OPTIONS["svd_positive"] = False
+    if stage == "B" and q in ("rdm", "marginal"):
+        stubs.OPTIONS["contracts"] = False
     try:
         cls = getattr(qtn, sim)
         circ = cls(N, gate_opts={"cutoff": 0.0})
@@ -587,37 +602,10 @@ def mps_simulators(mk, sim, prog, q):
         mk.encodes(cmps.CircuitMPS.compute_marginal, cmps.CircuitPermMPS.local_expectation, cmps.CircuitPermMPS._apply_gate)
         qa = mps_query_args(N)
         held = np.asarray(circ.to_dense()).reshape(-1)
-        if q == "expect" and N > 3 and mk.sym:
-            # the isometry certificates of a 4-site canonical form exceed the row budget (> 10**5 rows): labelled
-            # numeric-only supplement (the numeric runs below compare every call with the reference state)
-            mk.note("local_expectation on 4-qubit MPS programs: numeric cross-run only")
-            mk.same("numeric-only configuration (symbolic run skipped)", True, True)
+        if "A" in stage:
+            mk.eq(f"{sim}: to_dense() == reference state of the applied gates", held, v)
+        if "B" not in stage:
             return
-        if q == "expect":
-            # local_expectation re-canonises the MPS in place (new QR contracts).  Two stages, decided on separate
-            # paths so that the contracts of stage B do not enter the certificate search of stage A:
-            #   A: to_dense() == reference state                      B: the calls, each relative to the held state
-            # (the numeric runs do both stages and compare with the reference directly)
-            stage = mk.choice("stage", ("A", "B")) if mk.sym else "AB"
-            if "A" in stage:
-                mk.eq(f"{sim}: to_dense() == reference state of the applied gates", held, v)
-            if "B" not in stage:
-                return
-            prev = held
-            for where in qa["where"]:
-                wt = (where,) if isinstance(where, int) else where
-                O = mk.array("O" + "".join(map(str, wt)), (2 ** len(wt),) * 2, "cplx")
-                got = circ.local_expectation(O, where)
-                post = np.asarray(circ.to_dense()).reshape(-1)
-                mk.eq(f"{sim}: to_dense() after local_expectation(O, {where}) == to_dense() before it (the call moves the "
-                      "orthogonality centre in place; the held state must not change)", post, prev)
-                mk.eq(f"{sim}: local_expectation(O, {where}) == <psi|O|psi> of the held state", got, ref_expect(post, N, O, wt))
-                if not mk.sym:
-                    mk.eq(f"{sim}: local_expectation(O, {where}) == <psi|O|psi> of the reference state", got, ref_expect(v, N, O, wt))
-                prev = post
-            mk.eq(f"{sim}: amplitude after the local_expectation calls == entry of the held state", circ.amplitude("1" * N), prev[2 ** N - 1])
-            return
-        mk.eq(f"{sim}: to_dense() == reference state of the applied gates", held, v)
         # in the numeric runs the queries are also compared with the reference state directly
         targets = [("the held state", held)] + ([] if mk.sym else [("the reference state", v)])
         if q == "rdm":
@@ -643,8 +631,23 @@ def mps_simulators(mk, sim, prog, q):
                               m ** 2, want * want)
                     else:
                         mk.eq(f"{sim}: compute_marginal({where}, fix={fix}) == marginal probabilities of {nm}", m, want)
+        elif q == "expect":
+            prev = held
+            for where in qa["where"]:
+                wt = (where,) if isinstance(where, int) else where
+                O = mk.array("O" + "".join(map(str, wt)), (2 ** len(wt),) * 2, "cplx")
+                got = circ.local_expectation(O, where)
+                post = np.asarray(circ.to_dense()).reshape(-1)
+                mk.eq(f"{sim}: to_dense() after local_expectation(O, {where}) == to_dense() before it (the call moves the "
+                      "orthogonality centre in place; the held state must not change)", post, prev)
+                mk.eq(f"{sim}: local_expectation(O, {where}) == <psi|O|psi> of the held state", got, ref_expect(post, N, O, wt))
+                if not mk.sym:
+                    mk.eq(f"{sim}: local_expectation(O, {where}) == <psi|O|psi> of the reference state", got, ref_expect(v, N, O, wt))
+                prev = post
+            mk.eq(f"{sim}: amplitude after the local_expectation calls == entry of the held state", circ.amplitude("1" * N), prev[2 ** N - 1])
     finally:
         stubs.OPTIONS["svd_positive"] = True
+        stubs.OPTIONS["contracts"] = True
 
 
 def _ordered_pairs(N, nonadjacent=False):
